@@ -34,6 +34,16 @@ def concretize(model):
     return None
 
 
+def build_hdr(tag):
+    from contracts import reader_header
+    from pyvc.verify import Const, NoneT
+    eng = verify.Engine()
+    c = reader_header.register(eng, strict=True)
+    alts = {'none': NoneT(), 'lf': Const(b'\n'), 'crlf': Const(b'\r\n')}
+    c.params['self'].fields['_file_newlines'] = alts[tag]
+    return eng
+
+
 def main():
     chk = Check('C17')
     if chk.replay_file:
@@ -45,6 +55,17 @@ def main():
     eng = verify.Engine()
     reader_until.register(eng)
     chk.verify_functions(eng, [reader_until.NAME], timeout_s=40)
+    # the contract of _read_until has a precondition (one-byte delimiter,
+    # positive block size, stream position in range): it is an obligation
+    # at every call site - the only caller is _read_header
+    from contracts import reader_header
+    chk.verify_parallel(
+        build_hdr, [(reader_header.NAME, t) for t in ('none', 'lf', 'crlf')],
+        timeout_s=30, procs=3,
+        keep=lambda label: label.startswith('_read_until@call'))
+    chk.trusted.append('call sites: only the obligations `_read_until@call*.'
+                       'pre.*` of _read_header are claimed here (its own '
+                       'post-conditions are C10-C12)')
     chk.trusted.append('A-io: io.BytesIO-like stream model (read/seek/write/'
                        'getvalue), differential-tested in setup_cmd')
     chk.trusted.append('A-bytes: bytes.find / slicing / len')
@@ -65,6 +86,15 @@ def main():
                          for k in ('data', 'pos0', 'c', 'chunk_size')}
                     rep = native('C17', {'op': 'replay', 'witness': w})
             found = bool(rep and not rep['ok'])
+            if not found:
+                # whole-reader witness: records under two block sizes
+                if 'b' not in chk.__dict__:
+                    chk.b = native('C17', {'op': 'bounded', 'seed': chk.seed,
+                                           'tier': chk.tier}, timeout=3000)
+                if chk.b.get('failure'):
+                    w = chk.b['failure']
+                    rep = native('C17', {'op': 'replay', 'witness': w})
+                    found = not rep['ok']
             if status == smt.SAT or found:
                 chk.report_violation(oid, {
                     'function': reader_until.NAME, 'status': status,
